@@ -598,6 +598,46 @@ def read_resolve_reference_point(wntr):
     return dict(key=key, filter_lean=filt(key), model_filter_lean=filt("model"))
 
 
+def read_curve_memo_facts(wntr):
+    """ast facts about the coefficient memo of HeadPump.get_head_curve_coefficients: is the stored key `_coeffs_curve_points` a COPY of
+    curve.points or the list itself; does the Curve.points setter REBIND `self._points` (first touch is `self._points = ...`) or mutate it"""
+    import ast
+    import inspect
+    import textwrap
+    from wntr.network import elements as E
+
+    def parse(fn):
+        return ast.parse(textwrap.dedent(inspect.getsource(fn)))
+
+    key_copy = None
+    for n in ast.walk(parse(E.HeadPump.get_head_curve_coefficients)):
+        if isinstance(n, ast.Assign) and any(isinstance(t, ast.Attribute) and t.attr == "_coeffs_curve_points" for t in n.targets):
+            v = n.value
+            if isinstance(v, ast.Call):
+                fn = v.func.attr if isinstance(v.func, ast.Attribute) else getattr(v.func, "id", "")
+                key_copy = fn in ("deepcopy", "copy", "list", "tuple")
+            elif isinstance(v, (ast.List, ast.Tuple, ast.ListComp)):
+                key_copy = True
+            elif isinstance(v, ast.Subscript) and isinstance(v.slice, ast.Slice):
+                key_copy = True
+            else:
+                key_copy = False
+    if key_copy is None:
+        raise BrokenTie("get_head_curve_coefficients no longer stores `_coeffs_curve_points`")
+    fset = E.Curve.points.fset
+    rebinds = None
+    body = parse(fset).body[0].body
+    for st in body:
+        touched = [n for n in ast.walk(st) if isinstance(n, ast.Attribute) and n.attr == "_points"]
+        if not touched:
+            continue
+        rebinds = isinstance(st, ast.Assign) and len(st.targets) == 1 and isinstance(st.targets[0], ast.Attribute) and st.targets[0].attr == "_points"
+        break
+    if rebinds is None:
+        raise BrokenTie("Curve.points setter does not touch self._points")
+    return dict(key_is_copy=bool(key_copy), setter_rebinds=bool(rebinds))
+
+
 def gen_updater(wntr):
     """which (attribute -> Definition class) pairs `create_hydraulic_model` REALLY registers with the ModelUpdater for every
     link / junction / tank of the zoo (recorded at run time from `model_updater.update_functions`, so a registration moved
@@ -646,6 +686,13 @@ def gen_updater(wntr):
     out.append("def modelRefPointFilter : Option (List String) := %s" % rs["model_filter_lean"])
     out.append("")
     info["resolve"] = rs
+    mf = read_curve_memo_facts(wntr)
+    out.append("/-- the coefficient memo of `HeadPump.get_head_curve_coefficients` (ast): is the stored key a COPY of `curve.points`; does the")
+    out.append("`Curve.points` setter REBIND `self._points` (rather than mutate the list the key may alias) -/")
+    out.append("def memoKeyIsCopy : Bool := %s" % str(mf["key_is_copy"]).lower())
+    out.append("def curveSetterRebinds : Bool := %s" % str(mf["setter_rebinds"]).lower())
+    out.append("")
+    info["memo"] = mf
     reads = trace_param_reads(wntr)
     out.append("/-- which link attributes each parameter Definition's `build` READS (recorded on a link with symbolic attributes) -/")
     out.append("def paramReads : List (String × List String) := [")
